@@ -149,7 +149,7 @@ func specBlkR(blk block) bool     { return blk.header[0]&0x80 != 0 }
 //@ ensures [deliver] zzCalls("fn:deliverFrame") <= 1
 
 //@ func (*assembler).startMessage
-//@ emits fn:deliverFrame, secs1.(*ConnectionMetrics).incInvalidFirstBlockCount, fn:notify
+//@ emits fn:now, fn:deliverFrame, secs1.(*ConnectionMetrics).incInvalidFirstBlockCount, fn:notify
 //@ nosafety nil-deref nil-iface
 //@ modifies a.open, a.header, a.blocks[*], a.expected, a.lastBlockTime, a.lastHeader, a.haveLast
 //@ requires a != nil
@@ -160,17 +160,19 @@ func specBlkR(blk block) bool     { return blk.header[0]&0x80 != 0 }
 //@ cover [single]  specValidFirst(blk) && specBlkE(blk)
 //@ cover [multi]   specValidFirst(blk) && !specBlkE(blk)
 //@ cover [invalid] !specValidFirst(blk)
+//@ ensures [stamp]   specValidFirst(blk) && !specBlkE(blk) ==> zzCalls("fn:now") == 1 && a.lastBlockTime == zzRet[time.Time]("fn:now")
 //@ ensures [multi]   specValidFirst(blk) && !specBlkE(blk) ==> a.open && a.expected == 2 && len(a.blocks) == 1 && result == nil &&
 //@                   zzCalls("fn:deliverFrame") == 0 && a.header == blk.messageHeader()
 //@ ensures [once]    zzCalls("fn:deliverFrame") <= 1 && (zzCalls("fn:deliverFrame") == 1 ==> specBlkE(blk))
 
 //@ func (*assembler).appendBlock
-//@ emits fn:deliverFrame
+//@ emits fn:now, fn:deliverFrame
 //@ nosafety nil-deref nil-iface
 //@ modifies a.open, a.header, a.blocks[*], a.expected, a.lastBlockTime, a.lastHeader, a.haveLast
 //@ requires a != nil
 //@ ensures [record] a.haveLast && a.lastHeader == blk.header
 //@ ensures [last]   specBlkE(blk) ==> !a.open
+//@ ensures [stamp]  !specBlkE(blk) ==> zzCalls("fn:now") == 1 && a.lastBlockTime == zzRet[time.Time]("fn:now")
 //@ ensures [more]   !specBlkE(blk) ==> a.open == old(a.open) && a.expected == specBlkNum(blk)+1 && len(a.blocks) == old(len(a.blocks))+1 &&
 //@                  result == nil && zzCalls("fn:deliverFrame") == 0 && a.header == old(a.header)
 //@ ensures [once]   zzCalls("fn:deliverFrame") <= 1 && (zzCalls("fn:deliverFrame") == 1 ==> specBlkE(blk))
